@@ -1,9 +1,12 @@
 (* C16 - sorted(seq, key=, reverse=) and the dict union `|`, written against the definitions gotrans regenerates from
    builtins.go sorted() and objects.go pyDict.Operator (Gen/C16Builtins.v).  No proofs here.
 
-   sorted(): sort.Slice on at most 12 elements is insertionSortLessFunc,
+   sorted(): sort.SliceStable (since /repo 62283f2) is a STABLE sort: insertion sort on blocks of 20 elements, then
+   symMerge.  A stable sort with a strict weak `less` has exactly one result (Proof/C16_Sort.v stable_sorted_unique), so
+   the model computes it with the simplest stable sort there is, insertionSortLessFunc
        for i := a + 1; i < b; i++ { for j := i; j > a && less(j, j-1); j-- { swap(j, j-1) } }
-   with less(i, j) = s.operator(OP, key(l[i]), key(l[j])).IsTruthy(), OP = Gen.sorted_op_key reverse; whatever stands
+   (which is also literally what sort.Slice AND sort.SliceStable run on at most 12 elements).  When the source calls
+   sort.Slice (pdqsort beyond 12 elements, not stable) the model refuses longer lists.  less(i, j) = s.operator(OP, key(l[i]), key(l[j])).IsTruthy(), OP = Gen.sorted_op_key reverse; whatever stands
    between the sort and the return (Gen.sorted_post_reverse) is applied afterwards.  The keys are what the key function
    returned (the harness reads them off the real interpreter), an element is identified by its position in the input.
 
@@ -53,7 +56,13 @@ Definition go_isort {A} (less : A -> A -> bool) (l : list A) : list A :=
 Definition keyed := (skey * nat)%type.
 Definition tag (keys : list skey) : list keyed := combine keys (seq 0 (length keys)).
 
-(* sorted() after the argument checks and the clone, for ANY length (beyond 12 elements the real sort.Slice is pdqsort) *)
+(* which lengths the sort function sorts stably: None - a function the model does not know *)
+Inductive sort_fn := FStable | FSlice.
+Definition sort_fn_of (name : string) : option sort_fn :=
+  if String.eqb name "sort.SliceStable"%string then Some FStable else if String.eqb name "sort.Slice"%string then Some FSlice else None.
+Definition modelled_length (f : sort_fn) (n : nat) : bool := match f with FStable => true | FSlice => Nat.leb n 12 end.
+
+(* sorted() after the argument checks and the clone: THE stable sort of l by `less` *)
 Definition sorted_by (o : sort_op) (post_reverse : bool) (rv : bool) (l : list keyed) : list keyed :=
   let r := go_isort (fun a b => key_less o (fst a) (fst b)) l in
   if post_reverse && rv then rev r else r.
@@ -67,8 +76,12 @@ Definition asp_sorted (rv : bool) (l : list keyed) : option (list keyed) :=
 
 (* the permutation sorted(seq, key=f, reverse=rv) applies to seq, given the keys f returns *)
 Definition asp_sorted_perm (keys : list skey) (rv : bool) : option (list nat) :=
-  if Nat.ltb 12 (length keys) || negb (same_kind keys) then None
-  else match asp_sorted rv (tag keys) with Some r => Some (map (@snd _ _) r) | None => None end.
+  match sort_fn_of sorted_fn_key with
+  | None => None
+  | Some f =>
+      if negb (modelled_length f (length keys)) || negb (same_kind keys) then None
+      else match asp_sorted rv (tag keys) with Some r => Some (map (@snd _ _) r) | None => None end
+  end.
 
 (* CPython (Objects/listobject.c list_sort_impl): a STABLE ascending sort; for reverse=True the list is reversed before
    and after, "to keep stability".  The reference sort is the textbook insertion sort: an element is put in front of
